@@ -809,6 +809,16 @@ def mon_C17(t):
                     gfx = gf.x if isinstance(gf, A) else Fraction(gf)
                     if abs(gfx - wantf) > abs(wantf) * Fraction(1, 10 ** 9):
                         out.append(V("index-fundamental-is-weighted-average-at-clock-advance", k, got=float(gfx), want=float(wantf), time=e[4]))
+    # the index asked for with an explicit time - now, the step before, time 0 - against the components' own prices at that time
+    for k, kind, mid, tq, got, comps in t.res.get("index_probe", []):
+        if not comps or isinstance(got, str):
+            out.append(V("index-at-explicit-time-is-share-weighted-average", min(k, len(ev) - 1), market=mid, time=tq, got=str(got)))
+            continue
+        tot = sum(sh for _, _, sh in comps)
+        want = sum(Fraction(p) * sh for _, p, sh in comps) / tot
+        if abs(Fraction(got) - want) > abs(want) * Fraction(1, 10 ** 9):
+            out.append(V("index-at-explicit-time-is-share-weighted-average", min(k, len(ev) - 1), market=mid, time=tq,
+                         got=float(got), want=float(want), step_record=("begin" if kind == 9 else "end")))
     if ab:
         out.append(ab)
     return out[:20]
